@@ -272,8 +272,9 @@ class Generator:
             o = new.index('{')
             new = new[:o + 1] + '\n    let mut %s = %s;' % (p1, p0) + new[o + 1:]
             self.rule_log['R14:mut-param'] = self.rule_log.get('R14:mut-param', 0) + 1
-        if spec.get('mutself'):
+        if spec.get('mutself') and not (spec['mutself'] == 'auto' and not re.search(r'\(\s*mut self\b', parts['sig'])):
             # R14': `mut self` (by value) == immutable `self` plus `let mut self__ = self;` as the first statement (Verus has no `mut self`)
+            # (`mutself=auto`: applied iff the real receiver is declared `mut`)
             if not re.search(r'\(\s*mut self\b', parts['sig']):
                 raise ExtractError('%s: receiver `mut self` not found in the real signature' % spec['name'])
             o = new.index('{')
